@@ -115,3 +115,19 @@ func init() {
 		}
 	}
 }
+
+func init() {
+	debugCmds["tm"] = func(c *Ctx) {
+		r := NewReport("X", "quick")
+		ruleSpecConstants(c, r, "")
+		ruleCodecGeometry(c, r, "")
+		ruleStateFormulas(c, r, "")
+		ruleDecoderReps(c, r, "")
+		for _, o := range r.Obs {
+			if o.Status != OK {
+				fmt.Println(o.Status, o.Rule, o.Key, o.Pos, o.Msg)
+			}
+		}
+		fmt.Println("obligations", len(r.Obs))
+	}
+}
